@@ -137,6 +137,25 @@ func run(r *vt.Run, t vt.TB, s spec) {
 		k := newKeeper()
 		return hl.SelectDone("t", func(row sqlittle.Row) bool { return k.see(0, row, cb) }, cols...)
 	}})
+	// the naive join: a lookup on the same handle from inside the row
+	// callback. The handle is busy, the lookup is refused - and the scan goes
+	// on, stops where it is told to and gives its lock back all the same.
+	ops = append(ops, op{name: "SelectDone(t) whose callback tries a lookup on the same handle", high: true, run: func(cb func(string) bool) error {
+		k := newKeeper()
+		n := 0
+		mem.RefuseNested = true
+		defer func() { mem.RefuseNested = false }()
+		return hl.SelectDone("t", func(row sqlittle.Row) bool {
+			n++
+			if n%3 == 1 {
+				func() {
+					defer func() { recover() }()
+					hl.SelectRowid("t", 1, "rowid")
+				}()
+			}
+			return k.see(0, row, cb)
+		}, cols...)
+	}})
 	addIndexOps := func(name string, ix *sdb.Index, entries []bt.Entry, attrs []refcmp.KeyCol) {
 		ops = append(ops, op{name: "Index.Scan(" + name + ")", run: func(cb func(string) bool) error {
 			k := newKeeper()
